@@ -90,6 +90,8 @@ type Interp struct {
 	unknownFeas int
 	pruned      int
 	mapIDs      int
+	openKF      map[string]KnownFinding
+	kfTag       string
 }
 
 func (in *Interp) info(fn *ssa.Function) *fnInfo {
